@@ -352,6 +352,7 @@ def run(chk: Check) -> None:
     run_implicit_callee_indirection(chk, ix)
     run_plugins_snapshot(chk, ix)
     run_meta_tests_use_meta(chk, ix)
+    run_suppression_reason(chk, ix)
     # R02.7: the validity record itself survives the JSON round trip (instances of C11's conversion rule)
     from .c11 import run_json_conversions
     run_json_conversions(chk, ix, rid="R02.7", only=("CacheMeta", "CacheMetaEx"), floor=4)
@@ -664,3 +665,39 @@ def run_meta_tests_use_meta(chk: Check, ix) -> None:
             r17.violation(key, f.loc(i), f"`{norm(i.test)[:100]}` mentions nothing recorded in the cache file itself: after plugin v1 -> v2 and a run that stops at a blocking error, some metas are from v2 while the snapshot still says v1; reverting the plugin makes the snapshot match again and the v2 results are replayed")
     if n < 6:
         raise AnalysisError(f"find_cache_meta: only {n} `Metadata abandoned` tests found")
+
+
+def run_suppression_reason(chk: Check, ix) -> None:
+    """R02.18: the recorded reason for a suppressed import distinguishes the outcomes that are reported differently."""
+    from ..cfg import branch_conditions
+    r18 = chk.rule("R02.18", "find_module_and_diagnose records why an import was suppressed (SuppressionReason, hashed into the importer's meta through suppressed_deps_opts): a change of the reason is what makes the importer stale when a module appears or disappears. In `--follow-imports=error` mode a module that exists but is skipped is *reported* (skipping_module / skipping_ancestor), a missing one is not, so under follow_imports == 'error' the reason SKIPPED is never collapsed into NOT_FOUND (evaluated over follow_imports in normal/silent/skip/error)", floor=1)
+    f = ix.func("mypy.build.find_module_and_diagnose")
+    par = f.module.parents()
+    sites = [a for a in ast.walk(f.node) if isinstance(a, ast.Assign) and norm(a.targets[0]) == "reason" and norm(a.value).endswith("NOT_FOUND")]
+    if not sites:
+        raise AnalysisError("find_module_and_diagnose: no `reason = SuppressionReason.NOT_FOUND` found")
+
+    def ev(t: ast.expr, val: str):
+        if isinstance(t, ast.BoolOp):
+            vs = [ev(x, val) for x in t.values]
+            return all(vs) if isinstance(t.op, ast.And) else any(vs)
+        if isinstance(t, ast.UnaryOp) and isinstance(t.op, ast.Not):
+            return not ev(t.operand, val)
+        if isinstance(t, ast.Compare) and len(t.ops) == 1 and norm(t.left) == "follow_imports" and isinstance(t.comparators[0], ast.Constant):
+            eq = t.comparators[0].value == val
+            return eq if isinstance(t.ops[0], ast.Eq) else (not eq) if isinstance(t.ops[0], ast.NotEq) else True
+        return True  # unrelated atom: may hold
+    for a in sites:
+        pos, neg = branch_conditions(par, f.node, a)
+        possible = [v for v in ("normal", "silent", "skip", "error") if all(ev(t, v) for t in pos) and not any(ev(t, v) is True and _only_follow(t) for t in neg)]
+        key = "find_module_and_diagnose: a skipped import is not recorded as NOT_FOUND in 'error' mode"
+        if "error" not in possible:
+            r18.ok(key, f.loc(a), f"reached for follow_imports in {possible}")
+        else:
+            r18.violation(key, f.loc(a), f"`reason = NOT_FOUND` is reached with follow_imports == 'error' (possible values {possible}): with ignore_missing_imports the importer's meta records the same reason whether the module exists (reported: Import of \"mod\" ignored) or not (silent), so adding or removing the module leaves the importer fresh and the warm run differs from a cold one")
+
+
+def _only_follow(t: ast.expr) -> bool:
+    """The test mentions nothing but follow_imports comparisons (so its negation can be evaluated exactly)."""
+    names = {x.id for x in ast.walk(t) if isinstance(x, ast.Name)}
+    return names <= {"follow_imports"}
